@@ -232,6 +232,15 @@ fn run_case(c: &Case, rng: &mut Rng, rep: &mut Report, replay: &dyn Fn() -> Stri
     }
 }
 
+/// protocol types of the reserved range 0x0100..=0x05FF, biased to its two ends
+fn reserved_ptype(rng: &mut Rng) -> u16 {
+    match rng.below(4) {
+        0 => 0x0100 + rng.below(3) as u16,
+        1 => 0x05FF - rng.below(3) as u16,
+        _ => rng.range(0x100, 0x5FF) as u16,
+    }
+}
+
 fn meta_plain(l: Label) -> EncapMetadata {
     EncapMetadata::new(0x0800, l)
 }
@@ -241,7 +250,7 @@ impl Property for Prop {
         "C13"
     }
     fn rule(&self) -> &'static str {
-        "ctor: every extension id 0..=0xFFFF x data length 0..=10 (Ok <=> id < 0x0600 and (id < 0x0100 or length == H-LEN table), never a panic); small: seeded chains of 1..4 extensions (every optional H-LEN class, known non-final mandatory extensions with 0..8 data bytes, optionally a final mandatory extension last with type == its id) x all label kinds (incl. re-use substituted) x PDUs of 0..=64 bytes x EVERY buffer size from 5 to the full packet length + 2 (fragmentation at every offset inside and after the extension area) x storage == PDU length or larger; large: lattice-sized PDUs and buffers; illegal: type < 0x0100 with a non-matching / non-mandatory last extension, types 0x0100..0x05FF, final extension not matching the type (an error is expected; Ok is judged by decodability). Each Ok result is decoded by the independent parser and by the real receiver with an all-knowing manager, then by a receiver lacking one mandatory id. Non-trivial = a case that reached the receiver round trip; fingerprint = (chain shape, label, PDU length, buffer, storage)."
+        "ctor: every extension id 0..=0xFFFF x data length 0..=10 (Ok <=> id < 0x0600 and (id < 0x0100 or length == H-LEN table), never a panic); small: seeded chains of 1..4 extensions (every optional H-LEN class, known non-final mandatory extensions with 0..8 data bytes, optionally a final mandatory extension last with type == its id) x all label kinds (incl. re-use substituted) x PDUs of 0..=64 bytes x EVERY buffer size from 5 to the full packet length + 2 (fragmentation at every offset inside and after the extension area) x storage == PDU length or larger; large: lattice-sized PDUs and buffers; ptypes: every protocol type 0..=0x06FF through encap_ext with a one-element chain (reserved range refused, everything accepted decodable); illegal: type < 0x0100 with a non-matching / non-mandatory last extension, types 0x0100..0x05FF, final extension not matching the type (an error is expected; Ok is judged by decodability). Each Ok result is decoded by the independent parser and by the real receiver with an all-knowing manager, then by a receiver lacking one mandatory id. Non-trivial = a case that reached the receiver round trip; fingerprint = (chain shape, label, PDU length, buffer, storage)."
     }
     fn gens(&self, cx: &Cx) -> Vec<Gen> {
         vec![
@@ -249,6 +258,7 @@ impl Property for Prop {
             Gen { name: "small", count: cx.n(3_000, 150_000), exhaustive: false },
             Gen { name: "large", count: cx.n(4_000, 300_000), exhaustive: false },
             Gen { name: "illegal", count: cx.n(6_000, 300_000), exhaustive: false },
+            Gen { name: "ptypes", count: 0x0700, exhaustive: true },
         ]
     }
     fn run_key(&self, cx: &Cx, gen: &str, key: u64, rep: &mut Report) {
@@ -288,6 +298,24 @@ impl Property for Prop {
                     rep.sample(|| "ctor: ids 0x0100..0x01ff x lengths 0..=10 -> Ok exactly for length 0".into());
                 }
             }
+            "ptypes" => {
+                // every protocol type 0..=0x06FF with a one-element optional chain: Ok must be decodable, the
+                // reserved range must be refused
+                let ptype = key as u16;
+                let chain = ExtSpec { entries: vec![ExtEntry { id: 0x0200 | (key as u16 & 0xFF), data: vec![0x11, 0x22] }], final_ext: false };
+                let pdu = gen_pdu(&mut rng, 20, 0);
+                for (label, bl) in [(Label::Broadcast, 64usize), (gen_label(&mut rng, 2), 20)] {
+                    let c = Case { chain: &chain, ptype, label, primed: false, pdu: &pdu, buf_len: bl, storage: 20, legal: ptype >= 0x600 };
+                    let o = run_case(&c, &mut rng, rep, &replay);
+                    rep.count(&format!("c13.ptypes.{}", o));
+                    if (0x0100..0x0600).contains(&ptype) && o != "error" {
+                        rep.violation("C13", "reserved-ptype-accepted".into(), || format!("encap_ext accepted protocol type {:#06x} ({})", ptype, o), &replay);
+                    }
+                    if o.ends_with("-ok") {
+                        rep.nontrivial(mix(0x9797, (ptype as u64) << 8 | bl as u64));
+                    }
+                }
+            }
             "small" | "large" | "illegal" => {
                 let n = 1 + rng.below(4);
                 let final_ext = rng.chance(1, 3);
@@ -309,13 +337,13 @@ impl Property for Prop {
                         // final mandatory extension whose id is not the protocol type
                         match rng.below(3) {
                             0 => chain.entries.last().unwrap().id ^ (1 + rng.below(255) as u16),
-                            1 => rng.range(0x100, 0x5FF) as u16,
+                            1 => reserved_ptype(&mut rng),
                             _ => gen_user_ptype(&mut rng),
                         }
                     } else {
                         match rng.below(3) {
                             0 => rng.below(0x100) as u16,
-                            1 => rng.range(0x100, 0x5FF) as u16,
+                            1 => reserved_ptype(&mut rng),
                             _ => {
                                 // type below 0x100 equal to a NON-final mandatory id of the chain / arbitrary
                                 chain.entries.iter().find(|e| e.id < 0x100).map(|e| e.id).unwrap_or(0x0081)
